@@ -54,6 +54,20 @@ CLAIMED["C13"] = {
             "outside the claim.",
 }
 
+CLAIMED["C15"] = {
+    "text": "The drop decision of a local-exceptions file is decided against "
+            "the match table of the statement for every combination of "
+            "present/absent criteria in two prefix, two BGPsec and none-or-"
+            "two ASPA filters with arbitrary values (prefixes at full width) "
+            "and an arbitrary payload of each kind, plus the structurally "
+            "empty lists and the per-filter functions; each assertion kind "
+            "is shown to yield exactly its fields.",
+    "ref": "§3 C15",
+    "note": "Lists longer than two filters per kind and the JSON "
+            "(serde_json) round trip are outside the claim; comments are "
+            "None (they do not take part in any decision).",
+}
+
 NOT_APPLICABLE = {
 }
 
